@@ -22,26 +22,26 @@ def ctlOfJson (j : Json) : Option Ctl := do
   pure ⟨ts, pol⟩
 
 /-- index arrays of one control variable for all members, and the new count; `none` = raise -/
-def ctlIdx (c : TreeCfg) (v : Ctl) (count0 : Nat) : Option (List (List Nat) × Nat) :=
-  let n := v.ts.length
+def ctlIdx (full : Bool) (c : TreeCfg) (v : Ctl) (count0 : Nat) : Option (List (List Nat) × Nat) :=
+  let n := if full then v.ts.length else 0
   match v.pol with
   | "tree" =>
     let a := treeAlloc c v.ts count0
     if a.count > count0 && !int16Ok a.count then none
     else some ((List.range c.E).map (fun m => (List.range n).map (treeIdx c v.ts count0 m)), a.count)
   | "shared" =>
-    let a := flatAlloc .shared c.E n count0
-    some ((List.range c.E).map (fun m => (List.range n).map (flatIdx .shared c.E n count0 m)), a.count)
+    let a := flatAlloc .shared c.E v.ts.length count0
+    some ((List.range c.E).map (fun m => (List.range n).map (flatIdx .shared c.E v.ts.length count0 m)), a.count)
   | "per" =>
-    let a := flatAlloc .perMember c.E n count0
-    some ((List.range c.E).map (fun m => (List.range n).map (flatIdx .perMember c.E n count0 m)), a.count)
+    let a := flatAlloc .perMember c.E v.ts.length count0
+    some ((List.range c.E).map (fun m => (List.range n).map (flatIdx .perMember c.E v.ts.length count0 m)), a.count)
   | _ => none
 
-def allCtl (c : TreeCfg) : List Ctl → Nat → Option (List (List (List Nat)) × Nat)
+def allCtl (full : Bool) (c : TreeCfg) : List Ctl → Nat → Option (List (List (List Nat)) × Nat)
   | [], count => some ([], count)
   | v :: vs, count => do
-    let (ix, c1) ← ctlIdx c v count
-    let (rest, c2) ← allCtl c vs c1
+    let (ix, c1) ← ctlIdx full c v count
+    let (rest, c2) ← allCtl full c vs c1
     pure (ix :: rest, c2)
 
 def handle (j : Json) : Option Json := do
@@ -60,7 +60,8 @@ def handle (j : Json) : Option Json := do
       let tree := (getBool j "tree").getD false
       let cfg : TreeCfg := ⟨distOfTables tabs, k, E, t0, bts⟩
       if tree && treeRejected k E bts.length ntimes then pure (Json.str "raise") else
-      match allCtl cfg ctl 0 with
+      let full := (getBool j "idx").getD true
+      match allCtl full cfg ctl 0 with
       | none => pure (Json.str "raise")
       | some (ix, count) =>
         let br := if tree then
